@@ -11,7 +11,7 @@ import tempfile
 import time
 
 VERIF = os.path.dirname(os.path.dirname(os.path.abspath(__file__)))
-REPO = "/repo"
+REPO = os.environ.get("VERIF_REPO", "/repo")
 TARGET = os.path.join(VERIF, ".target")
 HARNESS_TARGET = os.path.join(TARGET, "harness")
 CLI_TARGET = os.path.join(TARGET, "cli")
